@@ -12,6 +12,29 @@ gdb.execute("set language c")
 gdb.execute("handle SIGURG nostop noprint pass")
 gdb.execute("handle SIGPIPE nostop noprint pass")
 tracing = [True]
+TABLES = []
+for _r in filter(None, os.environ.get("VX_STATIC_TABLES", "").split(",")):
+    _lo, _hi = _r.split(":")
+    TABLES.append((int(_lo), int(_hi)))
+TLO = min([a for a, _ in TABLES], default=0)
+THI = max([b for _, b in TABLES], default=0)
+
+def read_width(mn, ops, body):
+    """bytes read by a load whose memory operand is a source; None when not modelled (then nothing is recorded)"""
+    if "{1to" in body:
+        return 8 if mn.endswith("q") or mn.endswith("qb") or mn.endswith("pd") else 4
+    if mn.startswith(("vpbroadcast", "vbroadcast")):
+        for suf, w in (("32x8", 32), ("64x4", 32), ("32x4", 16), ("64x2", 16), ("f128", 16), ("i128", 16), ("32x2", 8), ("ss", 4), ("sd", 8), ("b", 1), ("w", 2), ("d", 4), ("q", 8)):
+            if mn.endswith(suf):
+                return w
+        return None
+    if mn.startswith(("movz", "movs")) and len(mn) >= 5 and mn[4] in "bwl":
+        return {"b": 1, "w": 2, "l": 4}[mn[4]]
+    if mn.startswith(("vpmovzx", "vpmovsx", "pmovzx", "pmovsx", "vpgather", "vgather", "vpexpand", "vexpand", "rep")):
+        return None
+    if mn.startswith(("vpinsr", "pinsr")):
+        return {"b": 1, "w": 2, "d": 4, "q": 8}.get(mn[-1])
+    return width_of(mn, ops)
 
 class Off(gdb.Breakpoint):
     def stop(self):
@@ -96,7 +119,7 @@ while True:
     off0 = int(m.group(1)) if m else 0
     start = pc - off0
     arch = frame.architecture()
-    writes, unknown = [], []
+    writes, unknown, reads = [], [], []
     sp0 = reg("rsp")
     steps = 0
     while steps < maxsteps:
@@ -124,6 +147,42 @@ while True:
                 cur += ch
         if cur.strip():
             ops.append(cur)
+        # loads from the package's static tables: source memory operands (every memory operand of compare-like
+        # instructions; every memory operand that is not the last one otherwise) whose address lies in the table area
+        if ops and TABLES and not asm.startswith(("lea", "nop", "prefetch")):
+            cmp_like = any(asm.startswith(p) for p in READONLY)
+            for oi, o in enumerate(ops):
+                if oi == len(ops) - 1 and not cmp_like and len(ops) > 1:
+                    continue
+                mo_ = MEM.search(o.strip())
+                if mo_ is None:
+                    continue
+                disp, base, index, scale = mo_.groups()
+                if base is None and index is None:
+                    continue
+                ea = int(disp, 0) if disp else 0
+                if base:
+                    ea += (pc + ins["length"]) if base == "%rip" else reg(base[1:])
+                if index:
+                    ea += reg(index[1:]) * int(scale)
+                ea &= 0xffffffffffffffff
+                if not (TLO <= ea < THI):
+                    continue
+                w = read_width(mn, [x for k, x in enumerate(ops) if k != oi], body)
+                if w is None:
+                    continue
+                lo_, hi_ = ea, ea + w
+                if mask is not None and not "{1to" in body:
+                    kv = reg(mask[1:])
+                    es = elsize(mn)
+                    lanes = max(1, w // es)
+                    kv &= (1 << lanes) - 1
+                    if kv == 0:
+                        continue
+                    first = (kv & -kv).bit_length() - 1
+                    lastb = kv.bit_length() - 1
+                    lo_, hi_ = ea + first * es, ea + (lastb + 1) * es
+                reads.append([pc - start, lo_, hi_])
         if ops and not any(asm.startswith(p) for p in READONLY):
             last = ops[-1].strip()
             mo = MEM.search(last)
@@ -158,7 +217,7 @@ while True:
                             writes.append([pc - start, lo, hi])
         gdb.execute("stepi", to_string=True)
         steps += 1
-    traces.append({"writes": writes, "unknown": unknown[:20], "steps": steps, "complete": steps < maxsteps, "sp": sp0})
+    traces.append({"writes": writes, "unknown": unknown[:20], "steps": steps, "complete": steps < maxsteps, "sp": sp0, "table_reads": reads})
     try:
         gdb.execute("continue")
     except gdb.error:
